@@ -70,30 +70,3 @@ Definition loader_diag (c : loader_case) :=
    end).
 
 Definition mismatches_loader := mismatches_from check_loader 0.
-
-(* the same check against the REPAIRED loader models (notes/C10.md); selected by the harness when
-   VERIF_LOADERS_FIXED=1, i.e. after the fix has been committed to the repository *)
-Definition lc_load_fixed (c : loader_case) (fetched : list fentry) : option loaded :=
-  match lc_kind c with
-  | 0%nat => Some (load_multihash_fixed (lc_id c) (lc_starts c) (lc_n c) fetched)
-  | 1%nat => Some (load_entryhash (lc_id c) (lc_n c) fetched)
-  | 2%nat => Some (load_json_fixed (lc_id c) (lc_n c) fetched)
-  | _ => load_entry_fixed (lc_n c) (lc_source c) fetched
-  end.
-
-Definition check_loader_fixed (c : loader_case) : bool :=
-  match run_trace (lc_config c) (lc_starts c) (lc_trace c) with
-  | Some s =>
-      terminalb s &&
-      match lc_load_fixed c (st_results s) with
-      | Some lg =>
-          lc_out_ok c && N.eqb (lg_id lg) (lc_out_id c)
-          && (if lc_exact c then nlist_eqb (map fe_hash (lg_entries lg)) (lc_out_entries c)
-              else same_set (map fe_hash (lg_entries lg)) (lc_out_entries c))
-          && same_set (map fe_hash (lg_heads lg)) (lc_out_heads c)
-      | None => negb (lc_out_ok c)
-      end
-  | None => false
-  end.
-
-Definition mismatches_loader_fixed := mismatches_from check_loader_fixed 0.
